@@ -71,8 +71,8 @@ class Sim:
         if self.free:
             i = self.free.pop()
             self.alive[i], self.parent[i], self.kids[i] = True, -1, []
-            if name is not None:
-                self.name[i] = bytes(name)
+            # an object made by newObject is unnamed also in a reused slot
+            self.name[i] = bytes(name) if name is not None else b'\0\0\0\0'
         else:
             i = self.n()
             self.alive.append(True); self.parent.append(-1); self.kids.append([]); self.name.append(bytes(name) if name is not None else b'\0\0\0\0')
@@ -341,6 +341,55 @@ def gen_history(rng, kind, size):
     return sim.flat()
 
 
+def gen_reuse(rng):
+    """slot reuse: named objects are created below scopes of a small tree and freed again; newObject (unnamed) and
+    newNamedObject (another name) then reuse the slots, the new objects are attached where the old ones were (or
+    elsewhere), and the OLD names are looked up from those scopes and from scopes below them: an unnamed object must
+    not answer to the name its slot carried before."""
+    sim = Sim()
+    th = rng.randrange(0, 256)
+    if rng.random() < 0.5:
+        sim.default_scopes(th)
+    else:
+        sim.create(SCOPEBLOCK, th, b'\\\0\0\0')
+    # a few nested scopes
+    scopes = [0]
+    for _ in range(rng.randrange(1, 5)):
+        o = rng.choice(scopes)
+        a = sim.create(SCOPEBLOCK, th, sim.fresh_name(rng, o, b''))
+        sim.append(o, a)
+        scopes.append(a)
+    for _ in range(rng.randrange(1, 4)):
+        victims = []
+        for _ in range(rng.randrange(1, 4)):
+            o = rng.choice(scopes)
+            nm = sim.fresh_name(rng, o, b'')
+            a = sim.create(rng.choice(KNOWN_OPS), th, nm)
+            if rng.random() < 0.85:
+                if sim.kids[o] and rng.random() < 0.3:
+                    sim.append_after(o, a, rng.choice(sim.kids[o]))
+                else:
+                    sim.append(o, a)
+            victims.append((a, o, nm))
+        for a, o, nm in victims:
+            sim.free_(a)
+        for a, o, nm in victims:
+            named = rng.random() < 0.3
+            b = sim.create(rng.choice(KNOWN_OPS), th, sim.fresh_name(rng, o, nm) if named else None)
+            where = o if rng.random() < 0.8 else rng.choice(scopes)
+            if not sim.anc_or_self(b, where):
+                sim.append(where, b)
+        for a, o, nm in victims:
+            below = [x for x in sim.live() if sim.anc_or_self(o, x)]
+            for scope in [o] + rng.sample(below, min(2, len(below))):
+                sim.cmds.append([7, scope, 4] + list(nm))
+            if rng.random() < 0.5:
+                e = b'\\' + bytes(nm) if o == 0 else b'^' + bytes(nm)
+                sim.cmds.append([7, rng.choice(scopes), len(e)] + list(e))
+    sim.cmds.append([6])
+    return sim.flat()
+
+
 def memo_round(rng, sim, th):
     """a lookup, then edits of ONE kind chosen so that they change (or could change) the answer of that very
     lookup, then the identical lookup again -- lookups must not remember anything across edits"""
@@ -360,6 +409,8 @@ def memo_round(rng, sim, th):
         N = rng.choice(NAMES)
         miss = not any(sim.name[c] == N for c in sim.kids[end])
         e = rng.choice([b'', b'^' if sim.parent[S] != -1 else b'', b'\\' if S == 0 or not segs else b'']) + pack(rng, segs + [N])
+        if e[:1] == b'^' and sim.parent[S] == -1:
+            return                          # an odd-byte name that looks like a parent prefix: no round
         if e[:1] == b'^':
             # relative to the parent: use the path from there
             segs, end = sim.path_down(rng, sim.parent[S], 3)
@@ -624,7 +675,7 @@ class C13(flow.Spec):
             'tree; a separate stream with one illegal edit followed by arbitrary edits), link digest after every edit and full dumps; '
             'Find from random live scopes on expressions built from the current tree (absolute, ^-prefixed, single segment, multi segment, '
             'dual/multi name prefixes) and perturbed (truncated, extra/wrong segment, odd bytes) plus arbitrary bytes; '
-            'memo rounds: a lookup, edits of one kind chosen to change its answer (middle/tail insert-after, append, detach/free of the answer, '
+            'slot reuse: named objects freed, their slots reused by newObject / newNamedObject, the old names looked up; memo rounds: a lookup, edits of one kind chosen to change its answer (middle/tail insert-after, append, detach/free of the answer, '
             'creation only, detach of an enclosing scope, re-attachment of a subtree), the identical lookup again; chains of 66-97 and 130-300 nested '
             'scopes and scopes with 130-300 children with lookups at every power-of-two boundary (bare names declared d parents up, ^ runs, long paths, ArgAt); '
             'non-trivial = at least 4 edits and one lookup or dump; distinct = distinct command lists')
@@ -646,6 +697,9 @@ class C13(flow.Spec):
                 continue
             if k % 250 == 13:
                 out.append((gen_deep2(rng, 'chain' if k % 750 != 13 else 'wide'), 'deep2'))
+                continue
+            if k % 25 == 3:
+                out.append((gen_reuse(rng), 'reuse'))
                 continue
             r = rng.random()
             kind = 'edit' if r < 0.32 else 'find' if r < 0.68 else 'memo' if r < 0.84 else 'illegal'
